@@ -14,7 +14,7 @@ from __future__ import annotations
 
 import ast
 
-from sa.consteval import ConstEval, FuncRef, NotConstant, Opaque, SAFE_BUILTINS, _Return
+from sa.consteval import BuiltinRaised, ConstEval, FuncRef, NotConstant, Opaque, SAFE_BUILTINS, _Return
 from sa.sveval import Res
 
 
@@ -453,6 +453,8 @@ class AbsEval(ConstEval):
                 return self.instantiate((cm, cn), args, kw)
         try:
             return super().call(e, env, mod)
+        except BuiltinRaised as ex:
+            raise AbsRaise(ex.cls, str(ex))
         except NotConstant as ex:
             if "opaque argument" in str(ex) or "builtin failed" in str(ex):
                 raise NotConstant(f"call {ftxt} with abstract arguments is outside the interpreter's summaries")
@@ -541,9 +543,9 @@ class AbsEval(ConstEval):
                 return ABytes() if name == "bytearray" else ()
             if len(args) == 1 and isinstance(a0, (list, tuple)) and any(is_abs(x) for x in a0) or isinstance(a0, ABytes):
                 return ABytes(a0) if name == "bytearray" else tuple(a0)
-        if name in ("int", "float", "str") and args and not any(is_abs(a) for a in args) and not kw and all(isinstance(a, (int, float, str, bool, bytes)) for a in args):
+        if name in ("int", "float", "str") and args and not any(is_abs(a) for a in args) and all(isinstance(a, (int, float, str, bool, bytes)) for a in list(args) + list((kw or {}).values())):
             try:
-                return {"int": int, "float": float, "str": str}[name](*args)
+                return {"int": int, "float": float, "str": str}[name](*args, **(kw or {}))
             except (ValueError, TypeError, OverflowError) as ex:
                 raise AbsRaise(type(ex).__name__, str(ex))
         if name == "hash" and len(args) == 1:
